@@ -772,14 +772,6 @@ theorem PoolsOk.set {t : Bool} {pools : AList PoolKey PoolState} (h : PoolsOk t 
     · subst e; rw [AList.get_set_self]; exact ⟨p', rfl, h2 hk'⟩
     · rw [AList.get_set_ne _ _ e]; exact h.builtins k' hk'
 
-/-- the liquidity the block's withdrawal transactions of pool `k` ask to redeem -/
-def drainOf (txs : List Tx) (k : PoolKey) : Nat :=
-  ((txs.filter fun tx => tx.kind = .liqWithdraw ∧ canonicalPoolKey tx.data = some k).map
-    fun tx => (tx.outputs.headD default).value).sum
-
-def NotDrained (t : Bool) (txs : List Tx) (pools : AList PoolKey PoolState) : Prop :=
-  ∀ k ∈ builtinsOf t, ∀ p, pools.get k = some p → drainOf txs k < p.liqs
-
 /-- the MEL the first outputs of the block's transactions can pay into a pool -/
 def melInflow (txs : List Tx) : Nat :=
   (txs.map fun tx => if (tx.outputs.headD default).denom = .mel then (tx.outputs.headD default).value else 0).sum
@@ -796,10 +788,10 @@ theorem poolMelSym_left : poolMelSym.left = .mel := by decide
 theorem processSwaps_ok (s st0 : State) (B V : Nat)
     (hbase : SameBase s st0) (hn : (s.txs.map (·.hash)).Nodup)
     (hpo : PoolsOk s.tip902 st0.pools) (hci : CoinsInv s.txs s.tip906 st0.coins)
-    (hnd : NotDrained s.tip902 s.txs st0.pools) (hV : melInflow s.txs ≤ V)
+    (hV : melInflow s.txs ≤ V)
     (hB : ∀ p, st0.pools.get poolMelSym = some p → p.lefts ≤ B) :
     ∃ st1, processSwaps st0 = .ok st1 ∧ SameBase s st1 ∧ PoolsOk s.tip902 st1.pools ∧
-      CoinsInv s.txs s.tip906 st1.coins ∧ NotDrained s.tip902 s.txs st1.pools ∧
+      CoinsInv s.txs s.tip906 st1.coins ∧
       (∀ p, st1.pools.get poolMelSym = some p → p.lefts ≤ B + V) := by
   unfold processSwaps
   simp only
@@ -823,16 +815,15 @@ theorem processSwaps_ok (s st0 : State) (B V : Nat)
   refine Exists.elim (Outcome.foldlM'_ok
     (fun st k => processSwapsForPool k st (transactionsForPool reqs k))
     (fun st rest => rest.Nodup ∧ SameBase s st ∧ PoolsOk s.tip902 st.pools ∧ CoinsInv s.txs s.tip906 st.coins ∧
-      NotDrained s.tip902 s.txs st.pools ∧
       (∀ k ∈ extractPoolKeysSorted reqs, ∃ p, st.pools.get k = some p ∧ 0 < p.lefts ∧ 0 < p.rights) ∧
       (poolMelSym ∈ rest → ∀ p, st.pools.get poolMelSym = some p → p.lefts ≤ B) ∧
       (∀ p, st.pools.get poolMelSym = some p → p.lefts ≤ B + V) ∧
       (∀ k ∈ rest, k ∈ extractPoolKeysSorted reqs))
     ?_ (extractPoolKeysSorted reqs) st0
-    ⟨extractPoolKeysSorted_nodup _, hbase, hpo, hci, hnd, hks, fun _ => hB,
+    ⟨extractPoolKeysSorted_nodup _, hbase, hpo, hci, hks, fun _ => hB,
       fun p hp => Nat.le_trans (hB p hp) (Nat.le_add_right _ _), fun _ h => h⟩)
-    (fun st1 ⟨h1, hI⟩ => ⟨st1, h1, hI.2.1, hI.2.2.1, hI.2.2.2.1, hI.2.2.2.2.1, hI.2.2.2.2.2.2.2.1⟩)
-  · intro st k rest ⟨hnod, hb, hpo', hci', hnd', hks', hB1, hB2, hsub⟩
+    (fun st1 ⟨h1, hI⟩ => ⟨st1, h1, hI.2.1, hI.2.2.1, hI.2.2.2.1, hI.2.2.2.2.2.2.1⟩)
+  · intro st k rest ⟨hnod, hb, hpo', hci', hks', hB1, hB2, hsub⟩
     have hnod' := List.nodup_cons.mp hnod
     obtain ⟨pool, hpool, hl, hr⟩ := hks' k (hsub k List.mem_cons_self)
     obtain ⟨pool', lw, rw, hsm, hl', hr', hliq, hle⟩ :=
@@ -843,14 +834,9 @@ theorem processSwaps_ok (s st0 : State) (B V : Nat)
         intro coins tx o orest cd htx ho hPc hcd
         rw [hb.tip906]
         exact hPc.insert hn (hsw k tx htx).1 (i := 0) (o := o) (by rw [ho]; rfl) hcd)
-    refine ⟨_, hok, hnod'.2, ⟨hb.txs, hb.height, hb.network, hb.feePool, hb.tips⟩, ?_, hP, ?_, ?_, ?_, ?_, ?_⟩
+    refine ⟨_, hok, hnod'.2, ⟨hb.txs, hb.height, hb.network, hb.feePool, hb.tips⟩, ?_, hP, ?_, ?_, ?_, ?_⟩
     · exact hpo'.set k pool' (fun _ => ⟨hl', hr'⟩)
         (fun hk => ⟨hl', hr', by rw [hliq]; exact (hpo'.builtin_get hk hpool).2.2⟩)
-    · intro k' hk' p hp
-      simp only at hp
-      by_cases e : k' = k
-      · subst e; rw [AList.get_set_self] at hp; cases hp; rw [hliq]; exact hnd' k' hk' pool hpool
-      · rw [AList.get_set_ne _ _ e] at hp; exact hnd' k' hk' p hp
     · intro k' hk'
       simp only
       by_cases e : k' = k
@@ -882,11 +868,9 @@ theorem processSwaps_ok (s st0 : State) (B V : Nat)
 theorem processDeposits_ok (env : Env) (s st0 : State) (B V : Nat)
     (hbase : SameBase s st0) (hn : (s.txs.map (·.hash)).Nodup)
     (hpo : PoolsOk s.tip902 st0.pools) (hci : CoinsInv s.txs s.tip906 st0.coins)
-    (hnd : NotDrained s.tip902 s.txs st0.pools) (hV : melInflow s.txs ≤ V)
-    (hDmax : ∀ k ∈ builtinsOf s.tip902, drainOf s.txs k < U128_MAX)
+    (hV : melInflow s.txs ≤ V)
     (hB : ∀ p, st0.pools.get poolMelSym = some p → p.lefts ≤ B) :
     ∃ st1, processDeposits env st0 = .ok st1 ∧ SameBase s st1 ∧ PoolsOk s.tip902 st1.pools ∧
-      NotDrained s.tip902 s.txs st1.pools ∧
       (∀ p, st1.pools.get poolMelSym = some p → p.lefts ≤ B + V) := by
   unfold processDeposits
   simp only
@@ -907,15 +891,14 @@ theorem processDeposits_ok (env : Env) (s st0 : State) (B V : Nat)
   refine Exists.elim (Outcome.foldlM'_ok
     (fun st k => processDepositsForPool env k st (transactionsForPool reqs k))
     (fun st rest => rest.Nodup ∧ SameBase s st ∧ PoolsOk s.tip902 st.pools ∧ CoinsInv s.txs s.tip906 st.coins ∧
-      NotDrained s.tip902 s.txs st.pools ∧
       (poolMelSym ∈ rest → ∀ p, st.pools.get poolMelSym = some p → p.lefts ≤ B) ∧
       (∀ p, st.pools.get poolMelSym = some p → p.lefts ≤ B + V) ∧
       (∀ k ∈ rest, k ∈ extractPoolKeysSorted reqs))
     ?_ (extractPoolKeysSorted reqs) st0
-    ⟨extractPoolKeysSorted_nodup _, hbase, hpo, hci, hnd, fun _ => hB,
+    ⟨extractPoolKeysSorted_nodup _, hbase, hpo, hci, fun _ => hB,
       fun p hp => Nat.le_trans (hB p hp) (Nat.le_add_right _ _), fun _ h => h⟩)
-    (fun st1 ⟨h1, hI⟩ => ⟨st1, h1, hI.2.1, hI.2.2.1, hI.2.2.2.2.1, hI.2.2.2.2.2.2.1⟩)
-  intro st k rest ⟨hnod, hb, hpo', hci', hnd', hB1, hB2, hsub⟩
+    (fun st1 ⟨h1, hI⟩ => ⟨st1, h1, hI.2.1, hI.2.2.1, hI.2.2.2.2.2.1⟩)
+  intro st k rest ⟨hnod, hb, hpo', hci', hB1, hB2, hsub⟩
   have hnod' := List.nodup_cons.mp hnod
   obtain ⟨tx0, htx0⟩ := hks k (hsub k List.mem_cons_self)
   obtain ⟨_, a0, a1, arest, ha, hpa0, hpa1, _⟩ := hdp k tx0 htx0
@@ -931,7 +914,7 @@ theorem processDeposits_ok (env : Env) (s st0 : State) (B V : Nat)
   obtain ⟨pool', m, hdep, hpos, hD, hle⟩ := deposit_spec _ (depTL (transactionsForPool reqs k))
     (depTR (transactionsForPool reqs k)) hsane
   by_cases hsat : ((st.pools.get k).getD PoolState.newEmpty).liqs + m > U128_MAX
-  · exact ⟨st, processDepositsForPool_skip env k st _ pool' m hdep hsat, hnod'.2, hb, hpo', hci', hnd',
+  · exact ⟨st, processDepositsForPool_skip env k st _ pool' m hdep hsat, hnod'.2, hb, hpo', hci',
       fun hmem => hB1 (List.mem_cons_of_mem _ hmem), hB2, fun k' hk' => hsub k' (List.mem_cons_of_mem _ hk')⟩
   obtain ⟨coins, hP, hok⟩ := processDepositsForPool_ok env k st (transactionsForPool reqs k) pool' m
     (CoinsInv s.txs s.tip906) hdep hsat
@@ -945,19 +928,11 @@ theorem processDeposits_ok (env : Env) (s st0 : State) (B V : Nat)
       rw [hb.tip906]
       exact hPc.remove id)
   have hU := U128_MAX_pos
-  refine ⟨_, hok, hnod'.2, ⟨hb.txs, hb.height, hb.network, hb.feePool, hb.tips⟩, ?_, hP, ?_, ?_, ?_, ?_⟩
+  refine ⟨_, hok, hnod'.2, ⟨hb.txs, hb.height, hb.network, hb.feePool, hb.tips⟩, ?_, hP, ?_, ?_, ?_⟩
   · refine hpo'.set k pool' (fun _ => hpos hTL hTR) (fun hk => ?_)
     obtain ⟨p, hp, _, _, hliq⟩ := hpo'.builtins k hk
     have := hpos hTL hTR
     exact ⟨this.1, this.2, hD 0 (by rw [hp]; exact hliq) hU⟩
-  · intro k' hk' p hp
-    simp only at hp
-    by_cases e : k' = k
-    · subst e
-      rw [AList.get_set_self] at hp; cases hp
-      obtain ⟨q, hq, _⟩ := hpo'.builtins k' hk'
-      exact hD _ (by rw [hq]; exact hnd' k' hk' q hq) (hDmax k' hk')
-    · rw [AList.get_set_ne _ _ e] at hp; exact hnd' k' hk' p hp
   · intro hmem p hp
     simp only at hp
     have e : poolMelSym ≠ k := by intro e; rw [← e] at hnod'; exact hnod'.1 hmem
@@ -990,28 +965,22 @@ theorem processDeposits_ok (env : Env) (s st0 : State) (B V : Nat)
 
 /-! ### the withdrawal phase -/
 
-theorem wdT_le_drainOf (env : Env) (s st0 : State) (hbase : SameBase s st0) (k : PoolKey) :
-    wdT (transactionsForPool (st0.txs.filter (isWithdrawRequest env st0)) k) ≤ drainOf s.txs k := by
-  unfold wdT drainOf transactionsForPool
-  refine Nat.le_trans (satSum_le_sum _) ?_
-  rw [List.filter_filter, hbase.txs]
-  apply sum_filter_le_of_imp
-  intro tx _ h
-  simp only [Bool.and_eq_true, decide_eq_true_eq] at h ⊢
-  first
-    | exact ⟨(isWithdrawRequest_full h.1).1, h.2⟩
-    | exact ⟨(isWithdrawRequest_full h.2).1, h.1⟩
+/-- every pool that records liquidity has reserves on both sides -/
+def SanePools (pools : AList PoolKey PoolState) : Prop :=
+  ∀ k p, pools.get k = some p → p.liqs ≠ 0 → 0 < p.lefts ∧ 0 < p.rights
 
+/-- the withdrawal phase succeeds, whatever the block asks to redeem: a request for more than a pool's whole
+    liquidity is skipped, one for exactly all of it leaves the pool empty (no reserves, no liquidity — the builtin
+    pools among these are made afresh by the second `create_builtins`, finding F24), a smaller one leaves reserves
+    on both sides. Nothing is assumed of the amounts. -/
 theorem processWithdrawals_ok (env : Env) (s st0 : State) (B : Nat)
-    (hbase : SameBase s st0) (hpo : PoolsOk s.tip902 st0.pools)
-    (hnd : NotDrained s.tip902 s.txs st0.pools)
+    (hbase : SameBase s st0) (hsane : SanePools st0.pools)
     (hB : ∀ p, st0.pools.get poolMelSym = some p → p.lefts ≤ B) :
-    ∃ st1, processWithdrawals env st0 = .ok st1 ∧ SameBase s st1 ∧ PoolsOk s.tip902 st1.pools ∧
+    ∃ st1, processWithdrawals env st0 = .ok st1 ∧ SameBase s st1 ∧ SanePools st1.pools ∧
       (∀ p, st1.pools.get poolMelSym = some p → p.lefts ≤ B) := by
-  have hdrain := wdT_le_drainOf env s st0 hbase
   unfold processWithdrawals
   simp only
-  generalize hreqs : st0.txs.filter (isWithdrawRequest env st0) = reqs at hdrain
+  generalize hreqs : st0.txs.filter (isWithdrawRequest env st0) = reqs
   have hks : ∀ k ∈ extractPoolKeysSorted reqs, (st0.pools.get k).isSome = true ∧
       ∃ tx, tx ∈ transactionsForPool reqs k := by
     intro k hk
@@ -1028,45 +997,35 @@ theorem processWithdrawals_ok (env : Env) (s st0 : State) (B : Nat)
     exact ⟨o0, ho, hp0⟩
   refine Exists.elim (Outcome.foldlM'_ok
     (fun st k => processWithdrawalsForPool k st (transactionsForPool reqs k))
-    (fun st rest => rest.Nodup ∧ SameBase s st ∧ PoolsOk s.tip902 st.pools ∧
-      (∀ k ∈ rest, k ∈ builtinsOf s.tip902 → ∀ p, st.pools.get k = some p → drainOf s.txs k < p.liqs) ∧
+    (fun st rest => SameBase s st ∧ SanePools st.pools ∧
       (∀ k ∈ extractPoolKeysSorted reqs, (st.pools.get k).isSome = true) ∧
       (∀ p, st.pools.get poolMelSym = some p → p.lefts ≤ B) ∧
       (∀ k ∈ rest, k ∈ extractPoolKeysSorted reqs))
     ?_ (extractPoolKeysSorted reqs) st0
-    ⟨extractPoolKeysSorted_nodup _, hbase, hpo, fun k _ hk => hnd k hk, fun k hk => (hks k hk).1, hB,
-      fun _ h => h⟩)
-    (fun st1 ⟨h1, hI⟩ => ⟨st1, h1, hI.2.1, hI.2.2.1, hI.2.2.2.2.2.1⟩)
-  intro st k rest ⟨hnod, hb, hpo', hnd', hex, hB', hsub⟩
-  have hnod' := List.nodup_cons.mp hnod
+    ⟨hbase, hsane, fun k hk => (hks k hk).1, hB, fun _ h => h⟩)
+    (fun st1 ⟨h1, hI⟩ => ⟨st1, h1, hI.1, hI.2.1, hI.2.2.2.1⟩)
+  intro st k rest ⟨hb, hsane', hex, hB', hsub⟩
   have hkks := hsub k List.mem_cons_self
   obtain ⟨pool, hpool⟩ := Option.isSome_iff_exists.mp (hex k hkks)
   have hsub' : ∀ k' ∈ rest, k' ∈ extractPoolKeysSorted reqs := fun k' hk' => hsub k' (List.mem_cons_of_mem _ hk')
   by_cases hgt : wdT (transactionsForPool reqs k) > pool.liqs
-  · refine ⟨st, processWithdrawalsForPool_skip k st _ pool hpool hgt, hnod'.2, hb, hpo', ?_, hex, hB', hsub'⟩
-    exact fun k' hk' => hnd' k' (List.mem_cons_of_mem _ hk')
+  · exact ⟨st, processWithdrawalsForPool_skip k st _ pool hpool hgt, hb, hsane', hex, hB', hsub'⟩
   · obtain ⟨tx0, htx0⟩ := (hks k hkks).2
     obtain ⟨a0, ha, hpa0⟩ := hwd k tx0 htx0
     have hT : 0 < wdT (transactionsForPool reqs k) :=
       satSum_pos ⟨a0.value, List.mem_map.mpr ⟨tx0, htx0, by rw [ha]; rfl⟩, hpa0⟩
     obtain ⟨pool', tl, tr, hw, hliq, hlefts, hpos⟩ := withdraw_spec pool _ hT (by omega)
     obtain ⟨coins, hok⟩ := processWithdrawalsForPool_ok k st _ pool pool' tl tr hpool hgt hw hT
-    refine ⟨_, hok, hnod'.2, ⟨hb.txs, hb.height, hb.network, hb.feePool, hb.tips⟩, ?_, ?_, ?_, ?_, hsub'⟩
-    · refine hpo'.set k pool' (fun hne => ?_) (fun hk => ?_)
-      · have hlt : wdT (transactionsForPool reqs k) < pool.liqs := by omega
-        obtain ⟨h1, h2⟩ := hpo'.sane k pool hpool (by omega)
-        exact hpos h1 h2 hlt
-      · have h1 := hnd' k List.mem_cons_self hk pool hpool
-        have h2 := hdrain k
-        have hlt : wdT (transactionsForPool reqs k) < pool.liqs := by omega
-        obtain ⟨h3, h4, _⟩ := hpo'.builtin_get hk hpool
-        have := hpos h3 h4 hlt
-        exact ⟨this.1, this.2, by omega⟩
-    · intro k' hk' hb' p hp
+    refine ⟨_, hok, ⟨hb.txs, hb.height, hb.network, hb.feePool, hb.tips⟩, ?_, ?_, ?_, hsub'⟩
+    · intro k' p hp hne
       simp only at hp
-      have e : k' ≠ k := by intro e; rw [e] at hk'; exact hnod'.1 hk'
-      rw [AList.get_set_ne _ _ e] at hp
-      exact hnd' k' (List.mem_cons_of_mem _ hk') hb' p hp
+      by_cases e : k' = k
+      · subst e
+        rw [AList.get_set_self] at hp; cases hp
+        have hlt : wdT (transactionsForPool reqs k') < pool.liqs := by omega
+        obtain ⟨h1, h2⟩ := hsane' k' pool hpool (by omega)
+        exact hpos h1 h2 hlt
+      · rw [AList.get_set_ne _ _ e] at hp; exact hsane' k' p hp hne
     · exact fun k' hk' => isSome_get_set _ (hex k' hk')
     · intro p hp
       simp only at hp
@@ -1225,7 +1184,8 @@ theorem applyTip909_ok (s st : State) (B : Nat) (hbase : SameBase s st)
     (hpo : PoolsOk s.tip902 st.pools) (h902 : s.tip902 = true)
     (hh : s.height < TIP_909_HEIGHT + 128 * SUBSIDY_HALVING)
     (hB : ∀ p, st.pools.get poolMelSym = some p → p.lefts ≤ B) (hfee : s.feePool + B ≤ U128_MAX) :
-    ∃ st', applyTip909 st = .ok st' ∧ st'.tips = s.tips ∧ st'.feePool ≤ s.feePool + B := by
+    ∃ st', applyTip909 st = .ok st' ∧ st'.tips = s.tips ∧ st'.feePool ≤ s.feePool + B ∧
+      PoolsOk s.tip902 st'.pools := by
   obtain ⟨sm, hsm, hsl, hsr, hsq⟩ := hpo.builtins poolMelSym (melSym_mem_builtinsOf _)
   obtain ⟨es, hes, hel, her, heq⟩ := hpo.builtins poolErgSym (by rw [h902]; simp [builtinsOf])
   unfold applyTip909
@@ -1253,9 +1213,11 @@ theorem applyTip909_ok (s st : State) (B : Nat) (hbase : SameBase s st)
   rw [if_neg (by rw [hbase.feePool]; omega)]
   rw [AList.get_set_ne _ _ (Ne.symm poolMelSym_ne_poolErgSym)]
   simp only [hes]
-  obtain ⟨es', a, b, e2, _⟩ := swapMany_spec es 0 esub hel her (Nat.zero_le _) (by omega)
+  obtain ⟨es', a, b, e2, g1, g2, g3, _⟩ := swapMany_spec es 0 esub hel her (Nat.zero_le _) (by omega)
   rw [e2]
-  exact ⟨_, rfl, hbase.tips, by simp only; rw [hbase.feePool]; omega⟩
+  refine ⟨_, rfl, hbase.tips, by simp only; rw [hbase.feePool]; omega, ?_⟩
+  exact (hpo.set poolMelSym sm' (fun _ => ⟨h1, h2⟩) (fun _ => ⟨h1, h2, by rw [h3]; exact hsq⟩)).set poolErgSym es'
+    (fun _ => ⟨g1, g2⟩) (fun _ => ⟨g1, g2, by rw [g3]; exact heq⟩)
 
 /-! ### `create_builtins` establishes the pool invariant -/
 
@@ -1315,17 +1277,14 @@ theorem createBuiltins_isSome (s : State) (k : PoolKey) (hk : k ∈ builtinsOf s
 theorem builtinDefault_facts : 0 < builtinDefault.lefts ∧ 0 < builtinDefault.rights ∧ 0 < builtinDefault.liqs ∧
     builtinDefault.lefts ≤ 2 ^ 125 ∧ builtinDefault.liqs ≤ U128_MAX := by decide
 
-theorem createBuiltins_ok (s : State)
-    (hsane : ∀ k p, s.pools.get k = some p → (p.liqs ≠ 0 → 0 < p.lefts ∧ 0 < p.rights))
-    (hnd : ∀ k ∈ [poolMelSym, poolMelErg, poolErgSym], ∀ p, (createBuiltins s).pools.get k = some p →
-      drainOf s.txs k < p.liqs)
-    (hres : ∀ p, s.pools.get poolMelSym = some p → p.lefts ≤ 2 ^ 125)
-    (hu : ∀ k ∈ [poolMelSym, poolMelErg, poolErgSym], ∀ p, s.pools.get k = some p → p.liqs ≤ U128_MAX) :
-    PoolsOk s.tip902 (createBuiltins s).pools ∧ NotDrained s.tip902 s.txs (createBuiltins s).pools ∧
-      (∀ k ∈ builtinsOf s.tip902, drainOf s.txs k < U128_MAX) ∧
-      (∀ p, (createBuiltins s).pools.get poolMelSym = some p → p.lefts ≤ 2 ^ 125) := by
+/-- `create_builtins` establishes the pool invariant from `SanePools` alone: a builtin pool that records no
+    liquidity is created afresh (`fix:` for F23), so nothing has to be assumed of the builtin pools -/
+theorem createBuiltins_ok (s : State) (B : Nat) (hsane : SanePools s.pools)
+    (hB : 2 ^ 125 ≤ B) (hres : ∀ p, s.pools.get poolMelSym = some p → p.lefts ≤ B) :
+    PoolsOk s.tip902 (createBuiltins s).pools ∧
+      (∀ p, (createBuiltins s).pools.get poolMelSym = some p → p.lefts ≤ B) := by
   obtain ⟨d1, d2, d3, d4, d5⟩ := builtinDefault_facts
-  refine ⟨⟨?_, ?_⟩, ?_, ?_, ?_⟩
+  refine ⟨⟨?_, ?_⟩, ?_⟩
   · intro k p hp
     rcases createBuiltins_get s k with e | e
     · rw [e] at hp; exact hsane k p hp
@@ -1333,8 +1292,6 @@ theorem createBuiltins_ok (s : State)
   · intro k hk
     obtain ⟨p, hp⟩ := Option.isSome_iff_exists.mp (createBuiltins_isSome s k hk)
     refine ⟨p, hp, ?_⟩
-    -- since the `fix:` for F23 a builtin pool that records no liquidity is created afresh, so nothing has to
-    -- be assumed of the builtin pools beyond `hsane`
     have hfix := createBuiltins_get_fixed s k (by
       unfold builtinsOf at hk
       split at hk
@@ -1359,19 +1316,10 @@ theorem createBuiltins_ok (s : State)
       · simp only [fixedPool, hz, if_false] at hfix; cases hfix
         obtain ⟨a, b⟩ := hsane k p hq hz
         exact ⟨a, b, Nat.pos_of_ne_zero hz⟩
-  · exact fun k hk p hp => hnd k (mem_builtinsOf_three hk) p hp
-  · intro k hk
-    obtain ⟨p, hp⟩ := Option.isSome_iff_exists.mp (createBuiltins_isSome s k hk)
-    have h1 := hnd k (mem_builtinsOf_three hk) p hp
-    have h2 : p.liqs ≤ U128_MAX := by
-      rcases createBuiltins_get s k with e | e
-      · rw [e] at hp; exact hu k (mem_builtinsOf_three hk) p hp
-      · rw [e] at hp; cases hp; exact d5
-    omega
   · intro p hp
     rcases createBuiltins_get s poolMelSym with e | e
     · rw [e] at hp; exact hres p hp
-    · rw [e] at hp; cases hp; exact d4
+    · rw [e] at hp; cases hp; omega
 
 /-! ### Melmint as a whole -/
 
@@ -1380,21 +1328,22 @@ theorem presealMelmint_ok (env : Env) (s : State)
     (hfaith : Faithful s.txs s.coins)
     (hn : (s.txs.map (·.hash)).Nodup)
     (hsane : ∀ k p, s.pools.get k = some p → (p.liqs ≠ 0 → 0 < p.lefts ∧ 0 < p.rights))
-    (hnd : ∀ k ∈ [poolMelSym, poolMelErg, poolErgSym], ∀ p, (createBuiltins s).pools.get k = some p →
-      drainOf s.txs k < p.liqs)
     (hres : ∀ p, s.pools.get poolMelSym = some p → p.lefts ≤ 2 ^ 125)
-    (hu : ∀ k ∈ [poolMelSym, poolMelErg, poolErgSym], ∀ p, s.pools.get k = some p → p.liqs ≤ U128_MAX)
     (hV : melInflow s.txs ≤ 2 ^ 124) :
     ∃ st, presealMelmint env s = .ok st ∧ SameBase s st ∧ PoolsOk s.tip902 st.pools ∧
       (∀ p, st.pools.get poolMelSym = some p → p.lefts ≤ 2 ^ 125 + 2 ^ 124 + 2 ^ 124 + U128_MAX / 200) := by
-  obtain ⟨hpo, hnd0, hDmax, hB0⟩ := createBuiltins_ok s hsane hnd hres hu
+  obtain ⟨hpo, hB0⟩ := createBuiltins_ok s (2 ^ 125) hsane (Nat.le_refl _) hres
   have hbase0 : SameBase s (createBuiltins s) := ⟨rfl, rfl, rfl, rfl, rfl⟩
-  obtain ⟨s1, e1, hb1, hpo1, hci1, hnd1, hB1⟩ := processSwaps_ok s (createBuiltins s) (2 ^ 125) (2 ^ 124)
-    hbase0 hn hpo ⟨hcounts, hfaith⟩ hnd0 hV hB0
-  obtain ⟨s2, e2, hb2, hpo2, hnd2, hB2⟩ := processDeposits_ok env s s1 (2 ^ 125 + 2 ^ 124) (2 ^ 124)
-    hb1 hn hpo1 hci1 hnd1 hV hDmax hB1
-  obtain ⟨s3, e3, hb3, hpo3, hB3⟩ := processWithdrawals_ok env s s2 _ hb2 hpo2 hnd2 hB2
-  obtain ⟨s4, e4, hb4, hpo4, hB4⟩ := processPegging_ok s s3 _ hb3 hpo3 hB3
+  obtain ⟨s1, e1, hb1, hpo1, hci1, hB1⟩ := processSwaps_ok s (createBuiltins s) (2 ^ 125) (2 ^ 124)
+    hbase0 hn hpo ⟨hcounts, hfaith⟩ hV hB0
+  obtain ⟨s2, e2, hb2, hpo2, hB2⟩ := processDeposits_ok env s s1 (2 ^ 125 + 2 ^ 124) (2 ^ 124)
+    hb1 hn hpo1 hci1 hV hB1
+  obtain ⟨s3, e3, hb3, hsane3, hB3⟩ := processWithdrawals_ok env s s2 _ hb2 hpo2.sane hB2
+  -- the withdrawals may have emptied a builtin pool: the second `create_builtins` makes it afresh (F24)
+  obtain ⟨hpo3', hB3'⟩ := createBuiltins_ok s3 _ hsane3 (by omega) hB3
+  rw [hb3.tip902] at hpo3'
+  have hb3' : SameBase s (createBuiltins s3) := ⟨hb3.txs, hb3.height, hb3.network, hb3.feePool, hb3.tips⟩
+  obtain ⟨s4, e4, hb4, hpo4, hB4⟩ := processPegging_ok s (createBuiltins s3) _ hb3' hpo3' hB3'
   refine ⟨s4, ?_, hb4, hpo4, hB4⟩
   unfold presealMelmint
   simp only
@@ -1422,47 +1371,67 @@ theorem applyProposerAction_ok (env : Env) (s : State) (a : ProposerAction)
     omega
   · exact ⟨_, rfl⟩
 
-/-- sealing succeeds -/
-theorem sealState_ok (env : Env) (s : State) (action : Option ProposerAction)
+theorem applyProposerAction_pools (env : Env) (s : State) (a : ProposerAction) (s' : State)
+    (h : applyProposerAction env s a = .ok s') : s'.pools = s.pools := by
+  unfold applyProposerAction collectProposerFee at h
+  simp only at h
+  split at h
+  · cases h
+  · cases h; rfl
+
+/-- sealing succeeds, and in the sealed state every builtin pool that is due exists with reserves on both sides and
+    liquidity (and every pool that records liquidity has reserves) -/
+theorem sealState_ok_pools (env : Env) (s : State) (action : Option ProposerAction)
     (hcounts : s.tip906 = true → CountsOk s.coins)
     (hfaith : Faithful s.txs s.coins)
     (hn : (s.txs.map (·.hash)).Nodup)
     (hsane : ∀ k p, s.pools.get k = some p → (p.liqs ≠ 0 → 0 < p.lefts ∧ 0 < p.rights))
-    (hnd : ∀ k ∈ [poolMelSym, poolMelErg, poolErgSym], ∀ p, (createBuiltins s).pools.get k = some p →
-      drainOf s.txs k < p.liqs)
     (hres : ∀ p, s.pools.get poolMelSym = some p → p.lefts ≤ 2 ^ 125)
-    (hu : ∀ k ∈ [poolMelSym, poolMelErg, poolErgSym], ∀ p, s.pools.get k = some p → p.liqs ≤ U128_MAX)
     (hV : melInflow s.txs ≤ 2 ^ 124)
     (hfee : s.feePool + s.tips + 2 ^ 21 ≤ 2 ^ 127)
     (hh : s.height < TIP_909_HEIGHT + 128 * SUBSIDY_HALVING) :
-    ∃ ss, sealState env s action = .ok ss := by
-  obtain ⟨s1, e1, hb1, hpo1, hB1⟩ := presealMelmint_ok env s hcounts hfaith hn hsane hnd hres hu hV
+    ∃ ss, sealState env s action = .ok ss ∧ PoolsOk s.tip902 ss.st.pools := by
+  obtain ⟨s1, e1, hb1, hpo1, hB1⟩ := presealMelmint_ok env s hcounts hfaith hn hsane hres hV
   have hU : U128_MAX = 340282366920938463463374607431768211455 := by decide
   have hlen : ¬ s1.pools.length < 2 := by
     obtain ⟨p1, h1, _⟩ := hpo1.builtins poolMelSym (melSym_mem_builtinsOf _)
     obtain ⟨p2, h2, _⟩ := hpo1.builtins poolMelErg (melErg_mem_builtinsOf _)
     exact two_le_length_of_get poolMelSym_ne_poolMelErg (by rw [h1]; rfl) (by rw [h2]; rfl)
   have h2 : ∃ s2, (if s1.tip909 = true then applyTip909 s1 else .ok s1) = .ok s2 ∧ s2.tips = s.tips ∧
-      s2.feePool ≤ s.feePool + (2 ^ 125 + 2 ^ 124 + 2 ^ 124 + U128_MAX / 200) := by
+      s2.feePool ≤ s.feePool + (2 ^ 125 + 2 ^ 124 + 2 ^ 124 + U128_MAX / 200) ∧ PoolsOk s.tip902 s2.pools := by
     by_cases h9 : s1.tip909 = true
     · rw [if_pos h9]
       have h902 : s.tip902 = true := tip909_imp_tip902 s (by rw [← hb1.tip909]; exact h9)
       exact applyTip909_ok s s1 _ hb1 hpo1 h902 hh hB1 (by omega)
     · rw [if_neg h9]
-      exact ⟨s1, rfl, hb1.tips, by rw [hb1.feePool]; omega⟩
-  obtain ⟨s2, e2, ht2, hf2⟩ := h2
+      exact ⟨s1, rfl, hb1.tips, by rw [hb1.feePool]; omega, hpo1⟩
+  obtain ⟨s2, e2, ht2, hf2, hpo2⟩ := h2
   unfold sealState
   rw [e1]
   simp only [Outcome.bind]
   rw [if_neg hlen, e2]
   simp only
   cases action with
-  | none => exact ⟨_, rfl⟩
+  | none => exact ⟨_, rfl, hpo2⟩
   | some a =>
     obtain ⟨s3, e3⟩ := applyProposerAction_ok env s2 a (by rw [ht2]; omega)
     simp only
     rw [e3]
-    exact ⟨_, rfl⟩
+    exact ⟨_, rfl, by rw [applyProposerAction_pools env s2 a s3 e3]; exact hpo2⟩
+
+/-- sealing succeeds -/
+theorem sealState_ok (env : Env) (s : State) (action : Option ProposerAction)
+    (hcounts : s.tip906 = true → CountsOk s.coins)
+    (hfaith : Faithful s.txs s.coins)
+    (hn : (s.txs.map (·.hash)).Nodup)
+    (hsane : ∀ k p, s.pools.get k = some p → (p.liqs ≠ 0 → 0 < p.lefts ∧ 0 < p.rights))
+    (hres : ∀ p, s.pools.get poolMelSym = some p → p.lefts ≤ 2 ^ 125)
+    (hV : melInflow s.txs ≤ 2 ^ 124)
+    (hfee : s.feePool + s.tips + 2 ^ 21 ≤ 2 ^ 127)
+    (hh : s.height < TIP_909_HEIGHT + 128 * SUBSIDY_HALVING) :
+    ∃ ss, sealState env s action = .ok ss :=
+  let ⟨ss, h, _⟩ := sealState_ok_pools env s action hcounts hfaith hn hsane hres hV hfee hh
+  ⟨ss, h⟩
 
 /-- the swap phase on its own succeeds in any state: the selector only lets through requests with a
     positive amount that name a pool with reserves, and `swap_many` keeps reserves -/
